@@ -966,6 +966,12 @@ def main(chk: Check, replay: dict | None = None) -> int:
         codes = chk.coq_eval("From PG Require Import Lib.Strs Model.AllOf Model.Parser Corr.C02.",
                              "(N * list (str * node)) * (list sobs + N)",
                              [c_case(c["input"], c["obs"]) for c in dom], "run", shard=150)
+    if codes is not None:
+        frag = [c for c, code in zip(dom, codes) if in_clean_runs_fragment(c["input"])]
+        clean = [c for c, code in zip(dom, codes) if in_clean_runs_fragment(c["input"]) and code == 0]
+        chk.cov["input_distribution"]["in_inl_spec_fragment"] = len(frag)
+        chk.cov["input_distribution"]["in_inl_spec_fragment_with_all_guards_true"] = len(clean)
+        chk.cov["input_distribution"]["in_inl_spec_fragment_guards_true_oracle_failures"] = sum(1 for c in clean if c["oracle_fail"])
     chk.decide(dom, codes, FINDING_BITS,
                "Corr.C02.run: observe(parse spec) = observation of load_ir_from_spec(spec).schemas")
     # outside the model's domain only the oracle speaks; failures there cannot be attributed by the model's guards,
@@ -1068,6 +1074,37 @@ def in_theorem_fragment(inp: dict) -> bool:
         return False
     md = inp.get("max_depth") or 150
     return 4 * len(spec) + 4 <= md
+
+
+def in_clean_runs_fragment(inp: dict) -> bool:
+    """Python rendering of inl_spec (hypothesis of C02_partial_clean_runs, without the dynamic part `events = []`):
+    like the core fragment, but properties of a top-level object may be inline objects of core properties; every
+    $ref declared; no two names of the name table equal and no property key equal to one of them."""
+    spec = {n: nd for n, nd in inp["schemas"]}
+
+    def item(x):
+        return x[0] in ("ref", "prim", "enum")
+
+    def prop(x):
+        return x[0] in ("ref", "prim") or (x[0] == "arr" and item(x[1]))
+
+    def obj(x):
+        return x[0] == "obj" and all(prop(b) for _, b in x[1])
+
+    def top(x):
+        if x[0] == "obj":
+            return all(prop(b) or obj(b) for _, b in x[1])
+        return ((x[0] == "allof" and all(m[0] in ("ref", "bare", "prim", "enum") or obj(m) for m in x[1]))
+                or x[0] in ("prim", "enum") or (x[0] in ("arr", "map") and item(x[1]))
+                or (x[0] in ("oneof", "anyof") and all(item(m) for m in x[1])))
+    names, keys = all_names(inp["schemas"])
+    if not all(top(nd) for nd in spec.values()) or not names <= set(spec):
+        return False
+    table = list(spec)
+    for n, nd in spec.items():
+        if nd[0] == "obj":
+            table += [n + simple_cls(k) for k, b in nd[1] if b[0] == "obj"]
+    return len(table) == len(set(table)) and not (keys & set(table))
 
 
 def has_ref_cycle(spec: dict) -> bool:
